@@ -287,6 +287,21 @@ pub fn pipeline(args: &[String]) -> String {
     class.to_string()
 }
 
+// pipelinek <kib> <text>: `pipeline` on a thread whose stack has <kib> KiB: a wide, shallow document (thousands of siblings,
+// attributes, references) must not need stack in proportion to its WIDTH (property C03: never exhaust the stack)
+pub fn pipelinek(args: &[String]) -> String {
+    let kib: usize = args.first().and_then(|v| v.parse().ok()).unwrap_or(512);
+    let rest: Vec<String> = args.iter().skip(1).cloned().collect();
+    let h = std::thread::Builder::new().stack_size(kib * 1024).spawn(move || pipeline(&rest));
+    match h {
+        Ok(j) => match j.join() {
+            Ok(s) => s,
+            Err(_) => "panic".to_string(),
+        },
+        Err(_) => "err:thread".to_string(),
+    }
+}
+
 // sinks <text>: pretty-print and compact-print the document into sinks that misbehave the way real sinks do (property C03:
 // printing terminates and returns a value or an error): a sink of fixed capacity that answers Ok(0) once it is full (as
 // `&mut [u8]` does), one that answers an error once it is full, and one that takes a single byte per call.
@@ -506,7 +521,20 @@ pub fn attrs(args: &[String]) -> String {
                 }
             }
         }
-        dwalk(&xml_dom::XmlNode::Document(dom), &mut dom_out, &mut bad, 0);
+        dwalk(&xml_dom::XmlNode::Document(dom.clone()), &mut dom_out, &mut bad, 0);
+        // Element.normalize() only merges adjacent Text nodes; the value every attribute reports is what it was
+        {
+            use xml_dom::{Document, ElementMut};
+            if let Ok(root) = dom.document_element() {
+                let _ = std::panic::catch_unwind(std::panic::AssertUnwindSafe(|| root.normalize()));
+                let mut again = String::new();
+                let mut bad2: Vec<String> = vec![];
+                dwalk(&xml_dom::XmlNode::Document(dom.clone()), &mut again, &mut bad2, 0);
+                if again != dom_out {
+                    bad.push(format!("after-normalize={}", again));
+                }
+            }
+        }
     }
     format!("ok {} dom={} bad={}", out, dom_out, bad.join(";"))
 }
